@@ -3,3 +3,4 @@ pub mod msg;
 pub mod poly;
 pub mod inst;
 pub mod lp;
+pub mod qp;
